@@ -168,6 +168,94 @@ def gen_B(rng, quiesce=False):
     return {"nodes": nodes, "T": T, "ops": ops, "fam": "C" if quiesce else "B"}
 
 
+def gen_E(rng):
+    """a key is overwritten while feedback for its previous version is still on its way"""
+    nodes = rng.choice([[1, 2], [1, 2], [1, 2, 3]])
+    T = rng.choice([1, 1, 2])
+    a = rng.choice(nodes)
+    b = rng.choice([m for m in nodes if m != a])
+    k = rng.choice(KEYS)
+    ops = [{"op": "write", "n": a, "k": k, "v": rng.randrange(1, 90), "lease": 0}]
+    if rng.random() < 0.3:
+        ops.append({"op": "write", "n": rng.choice(nodes), "k": rng.choice(KEYS), "v": rng.randrange(1, 90), "lease": 0})
+    nr = T + 2 + rng.randrange(0, 3)
+    for _ in range(nr):
+        ops.append({"op": "round", "i": a, "j": b, "late": rng.random() < 0.3})
+    # deliver part of the feedback, overwrite, deliver the rest
+    idx = list(range(0, 2 * nr + 2))
+    rng.shuffle(idx)
+    cut = rng.randrange(0, len(idx))
+    for f in idx[:cut]:
+        ops.append({"op": "fb", "f": f})
+    ops.append({"op": rng.choice(["write", "write", "del"]), "n": rng.choice([a, a, b]), "k": k, "v": rng.randrange(1, 90), "lease": 0})
+    if rng.random() < 0.5:
+        for f in idx[cut:]:
+            ops.append({"op": "fb", "f": f})
+    else:
+        ops.append({"op": "fball"})
+    ops += sweeps(nodes, T, rng)
+    return {"nodes": nodes, "T": T, "ops": ops, "fam": "E"}
+
+
+def gen_F(rng):
+    """restart + start-up recovery from one or two peers while gossip keeps arriving"""
+    nodes = [1, 2, 3] if rng.random() < 0.75 else [1, 2]
+    T = rng.choice([1, 2])
+    owner, st = {}, {"known": {}}
+    ops = []
+    for _ in range(rng.randrange(2, 7)):
+        o = rand_life_op(rng, nodes, owner, st, False)
+        if o["op"] in ("write", "del", "round", "fball"):
+            ops.append(o)
+    n = rng.choice(nodes)
+    peers = [m for m in nodes if m != n]
+    rng.shuffle(peers)
+    if rng.random() < 0.7:
+        ops.append({"op": "restart", "n": n})
+    begun = []
+    for p in peers[:rng.choice([1, 1, 2])]:
+        ops.append({"op": "recbegin", "n": n, "p": p})
+        begun.append(p)
+    for _ in range(rng.randrange(0, 4)):
+        x = rng.random()
+        if x < 0.5:
+            i = rng.choice(peers)
+            ops.append({"op": "round", "i": i, "j": n, "late": rng.random() < 0.3})
+        elif x < 0.8:
+            ops.append({"op": "write", "n": rng.choice(peers), "k": rng.choice(KEYS), "v": rng.randrange(1, 90), "lease": 0})
+        else:
+            ops.append(rand_life_op(rng, nodes, owner, st, False))
+    rng.shuffle(begun)
+    for p in begun:
+        ops.append({"op": "recend", "n": n, "p": p})
+    if rng.random() < 0.4:
+        ops += sweeps(nodes, T, rng)
+    return {"nodes": nodes, "T": T, "ops": ops, "fam": "F"}
+
+
+def gen_G(rng):
+    """two nodes create the same key; a third node's stale view forwards a write"""
+    nodes = [1, 2, 3]
+    T = rng.choice([1, 2])
+    k = rng.choice(KEYS)
+    a, b, c = rng.sample(nodes, 3)
+    ops = []
+    for _ in range(rng.randrange(0, 4)):
+        ops.append({"op": "write", "n": a, "k": rng.choice([x for x in KEYS if x != k] or KEYS), "v": rng.randrange(1, 90), "lease": 0})
+    ops.append({"op": "write", "n": a, "k": k, "v": rng.randrange(1, 90), "lease": 0})
+    ops.append({"op": "write", "n": b, "k": k, "v": rng.randrange(1, 90), "lease": 0})
+    tail = [{"op": "round", "i": b, "j": c, "late": False}, {"op": "round", "i": a, "j": b, "late": rng.random() < 0.5},
+            {"op": rng.choice(["write", "del"]), "n": c, "k": k, "v": rng.randrange(1, 90), "lease": 0}]
+    if rng.random() < 0.5:
+        rng.shuffle(tail)
+    ops += tail
+    for _ in range(rng.randrange(0, 4)):
+        ops.append(rand_life_op(rng, nodes, {}, {"known": {}}, True))
+    if rng.random() < 0.4:
+        ops += sweeps(nodes, T, rng)
+    return {"nodes": nodes, "T": T, "ops": ops, "fam": "G"}
+
+
 def gen_D(rng):
     c = gen_B(rng) if rng.random() < 0.5 else gen_A(rng)
     nodes = c["nodes"]
@@ -205,12 +293,18 @@ def gen_cases(rng, tier, n):
     out = []
     for i in range(n):
         x = rng.random()
-        if x < 0.35:
+        if x < 0.30:
             out.append(gen_A(rng))
-        elif x < 0.65:
+        elif x < 0.50:
             out.append(gen_B(rng))
-        elif x < 0.85:
+        elif x < 0.62:
             out.append(gen_B(rng, quiesce=True))
+        elif x < 0.72:
+            out.append(gen_E(rng))
+        elif x < 0.82:
+            out.append(gen_F(rng))
+        elif x < 0.88:
+            out.append(gen_G(rng))
         else:
             out.append(gen_D(rng))
     return out
@@ -355,8 +449,27 @@ def neighbours(case, rng):
     return out[:60]
 
 
+_TAG_CACHE = {}
+
+
+def kinds(case, r):
+    """violation codes of the Coq monitor on this case (see Mon_C06.violation_kinds)"""
+    key = json.dumps([case.get("nodes"), case.get("T"), case.get("ops"), r.get("outs")], sort_keys=True)
+    if key in _TAG_CACHE:
+        return _TAG_CACHE[key]
+    out = coq_print(PID, COQ_IMPORTS, "Definition K := Eval vm_compute in violation_kinds (%s).\nPrint K." % to_coq(case, r))
+    m = re.search(r"K\s*=\s*\[(.*?)\]", out.replace("\n", " "))
+    ks = []
+    if m and m.group(1).strip():
+        ks = [int(x.replace("%N", "").strip()) for x in m.group(1).split(";")]
+    _TAG_CACHE[key] = ks
+    return ks
+
+
 def tags(case, r):
-    return set()
+    if not r or harness_violation(case, r):
+        return set()
+    return {"C06:%d" % k for k in kinds(case, r)}
 
 
 def model_dump(case, r):
